@@ -11,7 +11,7 @@ LEVEL = ("Abstract interpretation (interval x monotonicity) of DualAverage::adva
          "Adam's increment has the sign of the smoothed (accept - target) and the smoothing is monotone (R3); the early/late statistic "
          "lanes agree with the public stat names (R4); the doubling and halving arms of the initial search are mirror images and every "
          "trial step is measured by a freshly initialised collector (R5/R6); the acceptance collector adds exactly one sample per "
-         "leapfrog to each running mean on every path, so the statistic is never 0/0 after a leapfrog (R7). Numeric identities (weighted average as a number, "
+         "leapfrog to each running mean on every path, so the statistic is never 0/0 after a leapfrog (R7), and every leapfrog outcome (Ok or Divergence) is registered with the collector exactly once (R8). Numeric identities (weighted average as a number, "
          "bracketing, closed-loop acceptance) are not decided.")
 EXPLANATION = ("MONO abstract interpreter over the HIR of the advance() bodies with induction over struct fields; FLOW lanes over MIR; "
                "SIB mirror comparison of the search arms; dominance of register_init over each trial leapfrog.")
@@ -402,12 +402,72 @@ def r7(F, R, rid="C07-R7"):
     R.floor(rid, 3)
 
 
+def r8(F, R, rid="C07-R8"):
+    R.rule(rid, "every leapfrog outcome is reported to the collector: in each impl Hamiltonian::leapfrog every path that constructs LeapfrogResult::Ok or "
+                "::Divergence passes exactly one Collector::register_leapfrog call (with Some(divergence info) on divergence paths, None on the Ok path); "
+                "only the unrecoverable-error return may skip it")
+    from .c05 import agg_blocks
+    impls = F.trait_method_impls("Hamiltonian", "leapfrog")
+    if not impls:
+        R.missing(rid, "impl Hamiltonian::leapfrog")
+    for b in impls:
+        regs = b.calls_to(lambda c: path_ends(c["path"], "Collector::register_leapfrog"))
+        w = {}
+        for bb, t in regs:
+            w[bb] = w.get(bb, 0) + 1
+        for variant in ("Ok", "Divergence"):
+            blocks = agg_blocks(b, "LeapfrogResult", variant)
+            if not blocks:
+                R.bad(rid, "%s:%s" % (b.path, variant), b.path, "no construction of LeapfrogResult::%s found (anchor)" % variant)
+            for i, a in enumerate(sorted(set(x if isinstance(x, int) else x[0] for x in blocks))):
+                pre = K.path_count_range(b, w, 0, targets=[a])
+                suf = K.path_count_range(b, w, a)
+                key = "%s:%s#%d" % (b.path, variant, i)
+                site = "%s @%s" % (b.path, b.loc())
+                if pre is None or suf is None:
+                    R.bad(rid, key, site, "cannot compute the paths through the construction of %s" % variant)
+                    continue
+                lo = pre[0] + suf[0] - w.get(a, 0)
+                hi = pre[1] + suf[1] - w.get(a, 0)
+                if (lo, hi) != (1, 1):
+                    R.bad(rid, key, site, "paths returning LeapfrogResult::%s register the step with the collector between %d and %d times (expected exactly once): "
+                          "an unregistered step is invisible to the acceptance statistic" % (variant, lo, hi))
+                    continue
+                # the info argument on those paths
+                okarg = True
+                for bb, t in regs:
+                    if b.dominates(bb, a) or a in b.reach_from(bb):
+                        v = b.value(t["args"][-1])
+                        is_some = any(n[0] == "agg" and "Some" in str(n[1]) for n in vt_walk(v))
+                        is_none = any(n[0] == "agg" and "None" in str(n[1]) for n in vt_walk(v)) or (v[0] == "const" and "None" in str(v))
+                        if bb in b.reach_from(0, avoid=[a]) or True:
+                            pass
+                        if a in b.reach_from(bb) and not any(a2 != a and a in b.reach_from(a2) for a2 in []):
+                            want_some = (variant == "Divergence")
+                            # only calls that lie on a path to this construction and not on a path to the other kind exclusively
+                            if want_some and is_none and not is_some and _only_reaches(b, bb, a):
+                                okarg = False
+                            if (not want_some) and is_some and _only_reaches(b, bb, a):
+                                okarg = False
+                if okarg:
+                    R.ok(rid, key, site, "exactly one register_leapfrog on every path to LeapfrogResult::%s" % variant)
+                else:
+                    R.bad(rid, key, site, "register_leapfrog on the %s path passes the wrong divergence-info argument" % variant)
+    R.floor(rid, 3)
+
+
+def _only_reaches(b, bb, a):
+    """every return reachable from bb is reached through block a"""
+    return not any(x in b.exits() for x in b.reach_from(bb, avoid=[a]))
+
+
 def run(F, R, config="all"):
     r1_r2(F, R)
     r3(F, R)
     r4(F, R)
     r5_r6(F, R)
     r7(F, R)
+    r8(F, R)
     for k, v in PARAM_DOMAINS.items():
         R.assume("option %s in %s (documented domain)" % (k[2:], v))
     R.assume("acceptance statistics and target_accept lie in [0, 1]")
